@@ -281,8 +281,8 @@ class Scenario:
         lay = self.layouts[sh]
         fields = lay.fields()
         op = rng.choice(["field", "field", "field", "field", "block", "block", "delete", "truncate", "flip", "otherfile",
-                         "otherenc", "unusedfield", "container", "tiny"])
-        if self.profile == "c46" and rng.random() < 0.15:
+                         "otherenc", "unusedfield", "container"] + (["tiny"] if self.profile == "c46" else []))
+        if self.profile == "c46" and rng.random() < 0.06:
             op = "tiny"
         if op == "tiny":
             # the share data (file minus 12-byte container header minus one 72-byte lease) becomes shorter than the
@@ -430,6 +430,11 @@ class Scenario:
                 ln = rng.randint(0, self.size + 3)
             node = 0 if (r == 0 or rng.random() < 0.8) else 1
             trig = rng.choice(["now", "now", "steps", "after", "quiescent", "quiescent"]) if r > 0 else "now"
+            if self.profile == "c46" and r > 0 and rng.random() < 0.3:
+                trig, kind = "now", "seg"          # concurrent reads that want different segments of the same node
+                s = rng.randrange(self.numsegs)
+                off = s * self.segsize
+                ln = min(self.segsize, self.size - off)
             self.reads.append({"id": "r%d" % r, "node": "n%d" % node, "off": off, "len": ln, "trig": trig,
                                "steps": rng.randint(1, 12)})
 
@@ -553,7 +558,7 @@ class Scenario:
         if sig in self.seen and fault is None:
             self.repeat += 1
         else:
-            self.repeat = 0 if fault is not None else self.repeat
+            self.repeat = 0
         self.seen.setdefault(sig, [0, p])[0] += 1
         self.last_nev = len(self.events)
         g.deliver(choice, fault)
